@@ -5,7 +5,7 @@ from typing import Any
 
 from ..absint import AObj
 from ..card import D, kind
-from ..codec import Codec, NAME_CLASSES, ctc_model, name_model
+from ..codec import Codec, operator_trees, NAME_CLASSES, ctc_model, name_model
 from ..core import AnalysisError, Ctx, loc
 from ..logic import BINARY_LOGICAL
 from ..model import ModelBuilder
@@ -77,6 +77,7 @@ def check(pm: ProgramModel, ctx: Ctx) -> None:
     for flag in (True, False):
         cd.report("FIELDS", f"abstract={flag}", cd.roundtrip(fide_model(mb, [D(1, 1, 1), D(0, 1, 1)], abstract=flag)),
                   f"abstract flags ({flag})", ("abstract",))
+    cd.abstract_positions(mb)
     for cls_, name in NAME_CLASSES.items():
         cd.report("ENC", f"name:{cls_}", cd.roundtrip(name_model(mb, name)), f"feature named {name!r} ({cls_})",
                   ("name", "root", "parent", "relation", "constraint"))
@@ -85,9 +86,7 @@ def check(pm: ProgramModel, ctx: Ctx) -> None:
     n, o = mb.node, mb.op
     fragment_ops = [op for op in BINARY_LOGICAL if op != "XOR"]
     for op in BINARY_LOGICAL:
-        roots = [(f"c_{op}", n(o(op), n("A"), n("B"))),
-                 (f"nested_{op}", n(o(op), n(o("NOT"), n("A")), n(o("AND"), n("B"), n("C")))),
-                 (f"inner_{op}", n(o("OR"), n(o(op), n("A"), n("B")), n("C")))]
+        roots = operator_trees(mb, op)
         cd.report("VOC", f"operator:{op}", cd.roundtrip(ctc_model(mb, roots)), f"constraints over {op}",
                   ("constraint", "constraint-count"), fragment=(op in fragment_ops))
     cd.report("VOC", "operator:NOT", cd.roundtrip(ctc_model(mb, [("neg", n(o("NOT"), n(o("NOT"), n("A"))))])),
